@@ -47,7 +47,7 @@ end
 def SimC (code : List Instr) (s : St) (rs : Ref.St) (env : Nat) (res : Ref.R Val) : Prop :=
   match res with
   | .ok v rs' => ∃ s', ReachE code.length s s' ∧ Lands code.length v s s' ∧ RelC s' rs' env ∧ FramesExt rs rs'
-      ∧ Frame s s'
+      ∧ Frame s s' ∧ Clean v
   | .err rs' => FailsE code.length s rs'.trace
   | .timeout => True
   | .brk _ _ => False
@@ -68,7 +68,7 @@ def SimCL (code : List Instr) (s : St) (rs : Ref.St) (env : Nat) (res : Ref.R (L
   match res with
   | .ok vs rs' => ∃ s', ReachE code.length s s' ∧ fnOf s' s'.curfunc = fnOf s s.curfunc
       ∧ s'.pc = s.pc + (code.length : Int) ∧ s'.data = vs.reverse.map some ++ s.data
-      ∧ RelC s' rs' env ∧ FramesExt rs rs' ∧ Frame s s'
+      ∧ RelC s' rs' env ∧ FramesExt rs rs' ∧ Frame s s' ∧ ∀ v ∈ vs, Clean v
   | .err rs' => FailsE code.length s rs'.trace
   | .timeout => True
   | .brk _ _ => False
@@ -119,6 +119,7 @@ def CClaimA (n : Nat) : Prop :=
     match Ref.evalArgs n args i (fun _ => false) env rs with
     | .ok vs rs' => ∃ M s', (∀ fuel, M ≤ fuel → (prepareArgs fuel none i args).run s = (.ok (), s'))
         ∧ s'.data = vs.reverse.map some ++ s.data ∧ s'.pc = s.pc ∧ RelC s' rs' env ∧ FramesExt rs rs' ∧ Frame s s'
+        ∧ ∀ v ∈ vs, Clean v
     | .err rs' => ∃ M, ∀ fuel, M ≤ fuel → ∃ se, (prepareArgs fuel none i args).run s = (.error .err, se)
         ∧ se.trace = rs'.trace
     | .timeout => True
@@ -342,10 +343,34 @@ theorem compile_ne_nil_Fc {e : Expr} (he : Fc e = true) {isFn c gs r}
 
 /-! ## Atoms, `def`, `set` -/
 
-theorem simC_push {s : St} {rs : Ref.St} {env : Nat} {pre post : List Instr} (v : Val)
+theorem simC_push {s : St} {rs : Ref.St} {env : Nat} {pre post : List Instr} (v : Val) (hv : Clean v)
     (hrel : RelC s rs env) (h : Seg s pre [.push v] post) : SimC [.push v] s rs env (.ok v rs) :=
   ⟨s.jmp (s.pc + 1) (some v :: s.data), (reach_push h.head).toE, ⟨rfl, by simp, rfl⟩, hrel.jmp _ _,
-    FramesExt.refl rs, Frame.jmp _ _ _⟩
+    FramesExt.refl rs, Frame.jmp _ _ _, hv⟩
+
+/-- what a lookup finds is a binding of the frame it names -/
+theorem ref_lookupIn_sound (frames : List Ref.Frame) (x : String) : ∀ fuel env id w,
+    Ref.lookupIn frames fuel env x = some (id, w) → (frames.getD id {}).vars.lookup x = some w
+  | 0, _, _, _, h => by simp [Ref.lookupIn] at h
+  | fuel + 1, env, id, w, h => by
+    rw [Ref.lookupIn] at h
+    cases hf : frames[env]? with
+    | none => rw [hf] at h; cases h
+    | some fr =>
+      rw [hf] at h
+      simp only at h
+      cases hl : fr.vars.lookup x with
+      | some v =>
+        rw [hl] at h
+        simp only [Option.some.injEq, Prod.mk.injEq] at h
+        obtain ⟨rfl, rfl⟩ := h
+        rw [List.getD_eq_getElem?_getD, hf]; exact hl
+      | none =>
+        rw [hl] at h
+        simp only at h
+        cases hp : fr.parent with
+        | none => rw [hp] at h; cases h
+        | some p => rw [hp] at h; exact ref_lookupIn_sound frames x fuel p id w h
 
 theorem simC_sym {s : St} {rs : Ref.St} {env : Nat} {pre post : List Instr} (x : String) (n : Nat)
     (hrel : RelC s rs env) (h : Seg s pre [.envToStack x] post) :
@@ -365,12 +390,13 @@ theorem simC_sym {s : St} {rs : Ref.St} {env : Nat} {pre post : List Instr} (x :
     simp only [SimC]
     exact ⟨s.jmp (s.pc + 1) (some v :: s.data),
       (Reach.step h.head (fun f => by rw [exec_envToStack, hl])).toE,
-      ⟨rfl, by simp, rfl⟩, hrel.jmp _ _, FramesExt.refl rs, Frame.jmp _ _ _⟩
+      ⟨rfl, by simp, rfl⟩, hrel.jmp _ _, FramesExt.refl rs, Frame.jmp _ _ _,
+      hrel.clean.1 id x v (ref_lookupIn_sound _ x _ _ id v hr)⟩
 
 /-- `popStackPutEnv x` with `v` on top of the data stack, in related states -/
 theorem psp_stepC {s₁ : St} {rs₁ : Ref.St} {env : Nat} {P Q : List Instr} {x : String} {v : Val}
     {D : List (Option Val)} (a : At s₁ P (.popStackPutEnv x) Q) (hd : s₁.data = some v :: D) (rel1 : RelC s₁ rs₁ env)
-    (hx : okBinder x = true) :
+    (hx : okBinder x = true) (hcv : Clean v) :
     match Ref.define rs₁ env x v with
     | some rs₂ => Reach 1 1 s₁ ((s₁.jmp (s₁.pc + 1) D).bind env x v)
         ∧ RelC ((s₁.jmp (s₁.pc + 1) D).bind env x v) rs₂ env ∧ FramesExt rs₁ rs₂
@@ -392,7 +418,7 @@ theorem psp_stepC {s₁ : St} {rs₁ : Ref.St} {env : Nat} {P Q : List Instr} {x
       Reach 1 1 s₁ ((s₁.jmp (s₁.pc + 1) D).bind env x v)
         ∧ RelC ((s₁.jmp (s₁.pc + 1) D).bind env x v) (Ref.setVar rs₁ env x v) env
         ∧ FramesExt rs₁ (Ref.setVar rs₁ env x v) := fun hb' =>
-    ⟨Reach.step a (fun f => (hx' f).trans hb'), (rel1.jmp _ _).bind env hlt hx v, FramesExt.setVar _ _ _ _⟩
+    ⟨Reach.step a (fun f => (hx' f).trans hb'), (rel1.jmp _ _).bind env hlt hx hcv, FramesExt.setVar _ _ _ _⟩
   have herr : (bindTop x v).run (s₁.jmp (s₁.pc + 1) D) = (.error .err, s₁.jmp (s₁.pc + 1) D) →
       Fails 1 s₁ rs₁.trace := fun hb' => by
     have hf := Fails.step a (fun f => (hx' f).trans hb')
@@ -415,12 +441,12 @@ theorem psp_stepC {s₁ : St} {rs₁ : Ref.St} {env : Nat} {P Q : List Instr} {x
 theorem simC_def_tail {s s₁ : St} {rs rs₁ : Ref.St} {env : Nat} {pre post ce : List Instr} {x : String} {v : Val}
     (h : Seg s pre (ce ++ [.dup, .popStackPutEnv x]) post) (hx : okBinder x = true)
     (r1 : ReachE ce.length s s₁) (l1 : Lands ce.length v s s₁) (rel1 : RelC s₁ rs₁ env) (ext1 : FramesExt rs rs₁)
-    (fr1 : Frame s s₁) :
+    (fr1 : Frame s s₁) (hcv : Clean v) :
     SimC (ce ++ [.dup, .popStackPutEnv x]) s rs env
       (match Ref.define rs₁ env x v with | some s' => .ok v s' | none => .err rs₁) := by
   obtain ⟨r2, a3⟩ := glue_dup h l1
   have hlen : (ce ++ [Instr.dup, Instr.popStackPutEnv x]).length = ce.length + 1 + 1 := by simp
-  have hp := psp_stepC a3 (D := some v :: s.data) rfl (rel1.jmp _ _) hx
+  have hp := psp_stepC a3 (D := some v :: s.data) rfl (rel1.jmp _ _) hx hcv
   cases hdef : Ref.define rs₁ env x v with
   | none =>
     rw [hdef] at hp
@@ -431,7 +457,7 @@ theorem simC_def_tail {s s₁ : St} {rs rs₁ : Ref.St} {env : Nat} {pre post ce
     obtain ⟨r3, rel3, ext3⟩ := hp
     simp only
     refine ⟨_, ((r1.trans r2.toE).trans r3.toE).mono (by rw [hlen]; exact Nat.le_refl _), ⟨l1.fn, ?_, rfl⟩, rel3,
-      ext1.trans ext3, fr1.trans ((Frame.jmp _ _ _).trans ((Frame.jmp _ _ _).trans (Frame.bind _ _ _ _)))⟩
+      ext1.trans ext3, fr1.trans ((Frame.jmp _ _ _).trans ((Frame.jmp _ _ _).trans (Frame.bind _ _ _ _))), hcv⟩
     show s₁.pc + 1 + 1 = _
     rw [l1.pc, hlen]; push_cast; omega
 
@@ -439,7 +465,7 @@ theorem simC_def_tail {s s₁ : St} {rs rs₁ : Ref.St} {env : Nat} {pre post ce
 theorem simC_set_tail {s s₁ : St} {rs rs₁ : Ref.St} {env : Nat} {pre post ce : List Instr} {x : String} {v : Val}
     (h : Seg s pre (ce ++ [.dup, .update x]) post) (hxb : okBinder x = true)
     (r1 : ReachE ce.length s s₁) (l1 : Lands ce.length v s s₁) (rel1 : RelC s₁ rs₁ env) (ext1 : FramesExt rs rs₁)
-    (fr1 : Frame s s₁) :
+    (fr1 : Frame s s₁) (hcv : Clean v) :
     SimC (ce ++ [.dup, .update x]) s rs env
       (match Ref.lookup rs₁ env x with
        | some (fr, _) => .ok v (Ref.setVar rs₁ fr x v)
@@ -468,8 +494,8 @@ theorem simC_set_tail {s s₁ : St} {rs rs₁ : Ref.St} {env : Nat} {pre post ce
       SimC (ce ++ [.dup, .update x]) s rs env (.ok v (Ref.setVar rs₁ id x v)) := by
     intro id hid hx'
     refine ⟨(s₁.jmp (s₁.pc + 1 + 1) (some v :: s.data)).bind id x v, ?_, ⟨l1.fn, ?_, rfl⟩,
-      (rel1.jmp _ _).bind id hid hxb v, ext1.trans (FramesExt.setVar _ _ _ _),
-      fr1.trans ((Frame.jmp _ _ _).trans (Frame.bind _ _ _ _))⟩
+      (rel1.jmp _ _).bind id hid hxb hcv, ext1.trans (FramesExt.setVar _ _ _ _),
+      fr1.trans ((Frame.jmp _ _ _).trans (Frame.bind _ _ _ _)), hcv⟩
     · exact ((r1.trans r2.toE).trans (Reach.step a3 hx').toE).mono (by rw [hlen]; exact Nat.le_refl _)
     · show s₁.pc + 1 + 1 = _
       rw [l1.pc, hlen]; push_cast; omega
@@ -499,8 +525,8 @@ theorem SimC.seq {code c₂ : List Instr} {s s₁' : St} {rs rs₁ : Ref.St} {en
     (hK : K₁ + c₂.length ≤ code.length) (hk : k + c₂.length = code.length) : SimC code s rs env res := by
   cases res with
   | ok v rs' =>
-    obtain ⟨s₂, r, l, rel, ext, fr⟩ := h₂
-    exact ⟨s₂, (hreach.trans r).mono hK, hk ▸ hmoved.lands l, rel, hext.trans ext, hframe.trans fr⟩
+    obtain ⟨s₂, r, l, rel, ext, fr, hcl⟩ := h₂
+    exact ⟨s₂, (hreach.trans r).mono hK, hk ▸ hmoved.lands l, rel, hext.trans ext, hframe.trans fr, hcl⟩
   | err rs' => exact (FailsE.of_reach hreach h₂).mono hK
   | timeout => trivial
   | brk l rs' => exact h₂
@@ -525,11 +551,11 @@ theorem SimC.cond_exit {p b rest pre post : List Instr} {s s₁' : St} {rs rs₁
       = p.length + 1 + b.length + 1 + rest.length := by simp; omega
   cases res with
   | ok v rs' =>
-    obtain ⟨s₂, r, l, rel, ext, fr⟩ := h₂
+    obtain ⟨s₂, r, l, rel, ext, fr, hcl⟩ := h₂
     have l2 : Lands (p.length + 1 + b.length) v s s₂ := hmoved.lands l
     obtain ⟨r3, l3⟩ := glue_cond_exit h l2
     exact ⟨_, ((hreach.trans r).trans r3.toE).mono (by rw [hlen]; omega), l3, rel.jmp _ _, hext.trans ext,
-      (hframe.trans fr).trans (Frame.jmp _ _ _)⟩
+      (hframe.trans fr).trans (Frame.jmp _ _ _), hcl⟩
   | err rs' => exact (FailsE.of_reach hreach h₂).mono (by rw [hlen]; omega)
   | timeout => trivial
   | brk l rs' => exact h₂
@@ -549,7 +575,7 @@ theorem SimC.scoped {inner pre post : List Instr} {s : St} {rs : Ref.St} {env : 
   have hlen : ([Instr.addScope] ++ inner ++ [Instr.removeScope]).length = 1 + inner.length + 1 := by simp; omega
   cases res with
   | ok v rs3 =>
-    obtain ⟨s3, r, l, rel3, ext3, fr3⟩ := hin
+    obtain ⟨s3, r, l, rel3, ext3, fr3, hcl⟩ := hin
     have l' : Lands (1 + inner.length) v s s3 := m1.lands l
     obtain ⟨rest, hlin⟩ := rel3.chain.head
     obtain ⟨f, hf, hp⟩ := ext3 rs.frames.length { parent := some env }
@@ -559,7 +585,8 @@ theorem SimC.scoped {inner pre post : List Instr} {s : St} {rs : Ref.St} {env : 
     have hframe : Frame s s3.popScope :=
       ⟨hl, hc, ha, hs, fr3.fnsLen, fr3.fns⟩
     refine ⟨_, ((r1.toE.trans r).trans r4.toE).mono (by rw [hlen]; omega), l4,
-      ⟨rel3.toRelCore.popScope f hf hp, ?_, rel3.globals⟩, (FramesExt.newFrame rs env).trans ext3, hframe⟩
+      ⟨rel3.toRelCore.popScope f hf hp, ?_, rel3.globals, rel3.clean⟩, (FramesExt.newFrame rs env).trans ext3, hframe,
+      hcl⟩
     rw [hc]
     exact hrel.fnchain.transfer ⟨[], by rw [hl]; rfl⟩ hframe.fnsLen hframe.fns
   | err rs3 => exact (FailsE.of_reach r1.toE hin).mono (by rw [hlen]; omega)
@@ -628,7 +655,7 @@ theorem seg_inHelper (s : St) (code : List Instr) : Seg (inHelper s code) [] cod
 /-- the helper sees the same scopes; its closing list is the whole linear stack -/
 theorem relC_inHelper {s : St} {rs : Ref.St} {env : Nat} (h : RelC s rs env) (code : List Instr) :
     RelC (inHelper s code) rs env := by
-  refine ⟨⟨h.len, h.vars, h.nofn, h.chain, h.heap, h.trace⟩, ?_, h.globals⟩
+  refine ⟨⟨h.len, h.vars, h.nofn, h.chain, h.heap, h.trace⟩, ?_, h.globals, h.clean⟩
   have hold : FnChainOk (inHelper s code) s.curfunc :=
     h.fnchain.transfer (s' := inHelper s code) ⟨[], rfl⟩ (by show s.fns.length ≤ (s.fns ++ [_]).length; simp)
       (fun id hid => fnOf_inHelper_old s code id hid)
@@ -684,7 +711,7 @@ theorem evalCallExpr_nonsym (fuel : Nat) (e : Expr) (hns : ∀ x, e ≠ .sym x) 
 def EvalOk (e : Expr) (s : St) (rs : Ref.St) (env : Nat) (res : Ref.R Val) : Prop :=
   match res with
   | .ok v rs' => ∃ M s', (∀ fuel, M ≤ fuel → (evalCallExpr fuel e).run s = (.ok v, s'))
-      ∧ s'.data = s.data ∧ s'.pc = s.pc ∧ RelC s' rs' env ∧ FramesExt rs rs' ∧ Frame s s'
+      ∧ s'.data = s.data ∧ s'.pc = s.pc ∧ RelC s' rs' env ∧ FramesExt rs rs' ∧ Frame s s' ∧ Clean v
   | .err rs' => ∃ M, ∀ fuel, M ≤ fuel → ∃ se, (evalCallExpr fuel e).run s = (.error .err, se) ∧ se.trace = rs'.trace
   | .timeout => True
   | .brk _ _ => False
@@ -714,7 +741,8 @@ theorem evalCallExpr_sym_sim (x : String) (n : Nat) {s : St} {rs : Ref.St} {env 
     | some r =>
       obtain ⟨i, v⟩ := r
       rw [hr] at hl
-      refine ⟨1, s, fun fuel hf => ?_, rfl, rfl, hrel, FramesExt.refl rs, Frame.refl s⟩
+      refine ⟨1, s, fun fuel hf => ?_, rfl, rfl, hrel, FramesExt.refl rs, Frame.refl s,
+        hrel.clean.1 i x v (ref_lookupIn_sound _ x _ _ i v hr)⟩
       obtain ⟨f, rfl⟩ : ∃ f, fuel = f + 1 := ⟨fuel - 1, by omega⟩
       rw [hrun, hl]
 
@@ -732,7 +760,7 @@ theorem evalCallExpr_nonsym_sim {n : Nat} (hE : CClaimE n) (e : Expr) (he : Fc e
   cases hres : Ref.eval n e env rs with
   | ok v rs' =>
     rw [hres] at hsim
-    obtain ⟨s4, r, l, rel4, ext4, fr4⟩ := hsim
+    obtain ⟨s4, r, l, rel4, ext4, fr4, hcl4⟩ := hsim
     have ha4 : s4.addr = some (s.curfunc, -1) :: s.addr := fr4.addr
     obtain ⟨M, hM⟩ := run_helper_ok hseg r l ha4
     -- the state after `Run`, and after restoring the control state
@@ -741,12 +769,12 @@ theorem evalCallExpr_nonsym_sim {n : Nat} (hE : CClaimE n) (e : Expr) (he : Fc e
       (by show s4.suspended.length = s.suspended.length; rw [fr4.susp]; rfl) rfl
       (by show s4.linear.length = s.linear.length; rw [fr4.linear]; rfl) rfl
     refine ⟨M + 2, { s4 with addr := s.addr, curfunc := s.curfunc, pc := s.pc, data := s.data }, fun fuel hf => ?_,
-      rfl, rfl, ?_, ext4, ?_⟩
+      rfl, rfl, ?_, ext4, ?_, hcl4⟩
     · obtain ⟨f, rfl⟩ : ∃ f, fuel = f + 2 := ⟨fuel - 2, by omega⟩
       rw [hunf f, hM f (by omega)]
       simp only [hbal]
       rfl
-    · refine ⟨⟨rel4.len, rel4.vars, rel4.nofn, ?_, rel4.heap, rel4.trace⟩, ?_, rel4.globals⟩
+    · refine ⟨⟨rel4.len, rel4.vars, rel4.nofn, ?_, rel4.heap, rel4.trace⟩, ?_, rel4.globals, rel4.clean⟩
       · have := rel4.chain; rw [fr4.linear] at this ⊢; exact this
       · exact hrel.fnchain.transfer (s' := { s4 with addr := s.addr, curfunc := s.curfunc, pc := s.pc, data := s.data })
           ⟨[], by show s4.linear = _; rw [fr4.linear]; rfl⟩
@@ -813,7 +841,7 @@ theorem cclaimA_succ {n : Nat} (hE : CClaimE n) (hA : CClaimA n) : CClaimA (n + 
   match args with
   | [] =>
     rw [Ref.evalArgs]
-    · refine ⟨1, s, fun fuel hf => ?_, by simp, rfl, hrel, FramesExt.refl rs, Frame.refl s⟩
+    · refine ⟨1, s, fun fuel hf => ?_, by simp, rfl, hrel, FramesExt.refl rs, Frame.refl s, fun v hv => by cases hv⟩
       obtain ⟨f, rfl⟩ : ∃ f, fuel = f + 1 := ⟨fuel - 1, by omega⟩
       rw [prepareArgs]
       · rfl
@@ -839,15 +867,19 @@ theorem cclaimA_succ {n : Nat} (hE : CClaimE n) (hA : CClaimA n) : CClaimA (n + 
     cases h1 : Ref.eval n e env rs with
     | ok v rs1 =>
       rw [h1] at he
-      obtain ⟨M1, s1, hM1, hd1, hp1, rel1, ext1, fr1⟩ := he
+      obtain ⟨M1, s1, hM1, hd1, hp1, rel1, ext1, fr1, hcl1⟩ := he
       simp only
       have ih := hA es hargs.2 (i + 1) (s1.jmp s1.pc (some v :: s1.data)) rs1 env (rel1.jmp _ _)
       cases h2 : Ref.evalArgs n es (i + 1) (fun _ => false) env rs1 with
       | ok vs rs2 =>
         rw [h2] at ih
-        obtain ⟨M2, s2, hM2, hd2, hp2, rel2, ext2, fr2⟩ := ih
+        obtain ⟨M2, s2, hM2, hd2, hp2, rel2, ext2, fr2, hcl2⟩ := ih
         refine ⟨max M1 M2 + 1, s2, fun fuel hf => ?_, ?_, by rw [hp2]; exact hp1, rel2, ext1.trans ext2,
-          fr1.trans ((Frame.jmp _ _ _).trans fr2)⟩
+          fr1.trans ((Frame.jmp _ _ _).trans fr2), fun w hw => ?_⟩
+        rotate_left 2
+        · rcases List.mem_cons.mp hw with rfl | hw
+          · exact hcl1
+          · exact hcl2 w hw
         · obtain ⟨f, rfl⟩ : ∃ f, fuel = f + 1 := ⟨fuel - 1, by omega⟩
           rw [hunf f, hM1 f (by omega)]
           exact hM2 f (by omega)
@@ -904,16 +936,24 @@ theorem exec_callExpr_builtin (F : Nat) (h : String) (args : List Expr) (s : St)
 /-- the relation only reads scopes, linear stack, function table, `curfunc`, frames, heaps and traces -/
 theorem RelC.of_same {s s' : St} {rs rs' : Ref.St} {env : Nat} (h : RelC s rs env)
     (hsc : s'.scopes = s.scopes) (hlin : s'.linear = s.linear) (hfns : s'.fns = s.fns) (hcur : s'.curfunc = s.curfunc)
-    (hfr : rs'.frames = rs.frames) (hheap : s'.heap = rs'.heap) (htr : s'.trace = rs'.trace) : RelC s' rs' env := by
+    (hfr : rs'.frames = rs.frames) (hheap : s'.heap = rs'.heap) (htr : s'.trace = rs'.trace) (hclean : CleanSt rs') :
+    RelC s' rs' env := by
   have hso : ∀ i, scopeOf s' i = scopeOf s i := fun i => by unfold scopeOf; rw [hsc]
   have hfo : ∀ i, fnOf s' i = fnOf s i := fun i => by unfold fnOf; rw [hfns]
   refine ⟨⟨by rw [hsc, hfr]; exact h.len, fun i x => by rw [hso, hfr]; exact h.vars i x,
-    fun i => by rw [hso]; exact h.nofn i, by rw [hfr, hlin]; exact h.chain, hheap, htr⟩, ?_, ?_⟩
+    fun i => by rw [hso]; exact h.nofn i, by rw [hfr, hlin]; exact h.chain, hheap, htr⟩, ?_, ?_, hclean⟩
   · rw [hcur]
     exact h.fnchain.transfer ⟨[], by rw [hlin]; rfl⟩ (by rw [hfns]; exact Nat.le_refl _) (fun id _ => hfo id)
   · intro name hn
     have := h.globals name hn
     rw [hfr]; exact this
+
+theorem foBuiltins_prim {h : String} (hh : h ∈ foBuiltins) (ht : h ≠ "trace") : h ∈ primNames := by
+  have : foBuiltins = primNames ++ ["trace"] := rfl
+  rw [this] at hh
+  rcases List.mem_append.mp hh with hh | hh
+  · exact hh
+  · simp at hh; exact absurd hh ht
 
 /-- **A call of a first-order builtin**: callee by lookup, operands by nested runs, the builtin
 under `CallUserFunction` — against `eval f`, `evalArgs`, `applyFn` of the reference evaluator. -/
@@ -930,7 +970,7 @@ theorem simC_call {m : Nat} (hA : CClaimA (m + 1)) (h : String) (hh : h ∈ foBu
   cases h1 : Ref.evalArgs (m + 1) args 0 (fun _ => false) env rs with
   | ok vs rs1 =>
     rw [h1] at hprep
-    obtain ⟨M, s1, hM, hd1, hp1, rel1, ext1, fr1⟩ := hprep
+    obtain ⟨M, s1, hM, hd1, hp1, rel1, ext1, fr1, hclvs⟩ := hprep
     simp only
     have hlen : args.length = vs.length := (ref_evalArgs_length _ _ _ _ _ _ _ h1).symm
     have hcu := fun f => run_callUser_fo f h hh vs s.data s1 hd1
@@ -941,9 +981,9 @@ theorem simC_call {m : Nat} (hA : CClaimA (m + 1)) (h : String) (hh : h ∈ foBu
     -- the successful case, uniformly in the new heap and trace
     have hok : ∀ (v : Val) (s3 : St) (rsF : Ref.St), foResult h vs (inBuiltin s1 s.data) = (.ok v, s3) →
         s3.scopes = s1.scopes → s3.linear = s1.linear → s3.fns = s1.fns → s3.suspended = s1.suspended →
-        rsF.frames = rs1.frames → s3.heap = rsF.heap → s3.trace = rsF.trace →
+        rsF.frames = rs1.frames → s3.heap = rsF.heap → s3.trace = rsF.trace → CleanSt rsF → Clean v →
         SimC [.callExpr (.sym h) args] s rs env (.ok v rsF) := by
-      intro v s3 rsF hres hsc hlin hfns hsus hfr hheap htr
+      intro v s3 rsF hres hsc hlin hfns hsus hfr hheap htr hclF hclv
       let sF : St := { s3 with data := some v :: s.data, addr := s1.addr, curfunc := s1.curfunc, pc := s1.pc + 1 }
       have hx : ∀ f, M + 3 ≤ f → (exec (f + 1) (.callExpr (.sym h) args)).run s = (.ok (), sF) := by
         intro f hf
@@ -951,7 +991,7 @@ theorem simC_call {m : Nat} (hA : CClaimA (m + 1)) (h : String) (hh : h ∈ foBu
         rw [hexec (G + 1), run_bind, hM (G + 1 + 1) (by omega)]
         simp only
         rw [hlen, hcu G, hres]
-      have hrelF : RelC sF rsF env := rel1.of_same hsc hlin hfns rfl hfr hheap htr
+      have hrelF : RelC sF rsF env := rel1.of_same hsc hlin hfns rfl hfr hheap htr hclF
       have hfnF : fnOf sF sF.curfunc = fnOf s s.curfunc := by
         show s3.fns.getD s1.curfunc {} = _
         rw [hfns, fr1.curfunc]; exact fr1.fns _ hcurlt
@@ -959,7 +999,7 @@ theorem simC_call {m : Nat} (hA : CClaimA (m + 1)) (h : String) (hh : h ∈ foBu
         ext1.trans (fun i fr hf => ⟨fr, by rw [hfr]; exact hf, rfl⟩),
         ⟨hlin.trans fr1.linear, fr1.curfunc, fr1.addr, hsus.trans fr1.susp,
           by show s.fns.length ≤ s3.fns.length; rw [hfns]; exact fr1.fnsLen,
-          fun id hid => by show s3.fns.getD id {} = _; rw [hfns]; exact fr1.fns id hid⟩⟩
+          fun id hid => by show s3.fns.getD id {} = _; rw [hfns]; exact fr1.fns id hid⟩, hclv⟩
     by_cases ht : h = "trace"
     · simp only [ht, if_true]
       rw [ht] at hok
@@ -968,6 +1008,7 @@ theorem simC_call {m : Nat} (hA : CClaimA (m + 1)) (h : String) (hh : h ∈ foBu
         unfold foResult; rw [if_pos rfl]
       exact hok _ _ { rs1 with trace := rs1.trace ++ [pr rs1.heap (vs.headD .nil)] } hfo rfl rfl rfl rfl rfl
         rel1.heap (by show (inBuiltin s1 s.data).trace ++ [pr (inBuiltin s1 s.data).heap _] = _; rw [hheapb, htrb])
+        rel1.clean (by cases vs with | nil => trivial | cons v0 _ => exact hclvs v0 List.mem_cons_self)
     · simp only [ht, if_false]
       cases hp : prim h vs rs1.heap with
       | some r =>
@@ -975,7 +1016,8 @@ theorem simC_call {m : Nat} (hA : CClaimA (m + 1)) (h : String) (hh : h ∈ foBu
         have hfo : foResult h vs (inBuiltin s1 s.data) = (.ok v, { inBuiltin s1 s.data with heap := hp' }) := by
           unfold foResult; rw [if_neg ht, hheapb, hp]
         simp only
-        exact hok v _ { rs1 with heap := hp' } hfo rfl rfl rfl rfl rfl rfl rel1.trace
+        have hpc := prim_clean h (foBuiltins_prim hh ht) vs rs1.heap v hp' hp hclvs rel1.clean.2
+        exact hok v _ { rs1 with heap := hp' } hfo rfl rfl rfl rfl rfl rfl rel1.trace ⟨rel1.clean.1, hpc.2⟩ hpc.1
       | none =>
         have hfo : foResult h vs (inBuiltin s1 s.data) = (.error .err, inBuiltin s1 s.data) := by
           unfold foResult; rw [if_neg ht, hheapb, hp]
@@ -1000,20 +1042,20 @@ theorem simC_call {m : Nat} (hA : CClaimA (m + 1)) (h : String) (hh : h ∈ foBu
 /-! ## The parallel bindings of `let` -/
 
 theorem vm_defineAllC : ∀ (ps : List (String × Val)) (s : St) (rs : Ref.St) (fr : Nat) (P Q : List Instr)
-    (D : List (Option Val)), (∀ p ∈ ps, okBinder p.1 = true) →
+    (D : List (Option Val)), (∀ p ∈ ps, okBinder p.1 = true) → (∀ p ∈ ps, Clean p.2) →
     Seg s P (ps.map (fun p => Instr.popStackPutEnv p.1)) Q → s.data = ps.map (fun p => some p.2) ++ D → RelC s rs fr →
     match defineAll rs fr ps with
     | some rs' => ∃ s', Reach ps.length 1 s s' ∧ fnOf s' s'.curfunc = fnOf s s.curfunc
         ∧ s'.pc = s.pc + (ps.length : Int) ∧ s'.data = D ∧ RelC s' rs' fr ∧ FramesExt rs rs' ∧ Frame s s'
     | none => Fails ps.length s rs.trace
-  | [], s, rs, fr, P, Q, D, _, _, hd, hrel => by
+  | [], s, rs, fr, P, Q, D, _, _, _, hd, hrel => by
     simp only [defineAll]
     exact ⟨s, Reach.refl s |>.mono (Nat.le_refl _) (by simp), rfl, by simp, by simpa using hd, hrel, FramesExt.refl rs,
       Frame.refl s⟩
-  | (x, v) :: ps, s, rs, fr, P, Q, D, hok, hseg, hd, hrel => by
+  | (x, v) :: ps, s, rs, fr, P, Q, D, hok, hcl, hseg, hd, hrel => by
     simp only [List.map_cons] at hseg hd
     have a1 : At s P (.popStackPutEnv x) (ps.map (fun p => Instr.popStackPutEnv p.1) ++ Q) := hseg.head
-    have hp := psp_stepC a1 hd hrel (hok (x, v) List.mem_cons_self)
+    have hp := psp_stepC a1 hd hrel (hok (x, v) List.mem_cons_self) (hcl (x, v) List.mem_cons_self)
     simp only [defineAll]
     cases hdef : Ref.define rs fr x v with
     | none =>
@@ -1027,7 +1069,8 @@ theorem vm_defineAllC : ∀ (ps : List (String × Val)) (s : St) (rs : Ref.St) (
           (ps.map (fun p => Instr.popStackPutEnv p.1)) Q :=
         hseg.move (s' := (s.jmp (s.pc + 1) (ps.map (fun p => some p.2) ++ D)).bind fr x v) rfl (by simp)
           (by show s.pc + 1 = _; rw [hseg.pc]; simp)
-      have ih := vm_defineAllC ps _ rs1 fr _ Q D (fun p hp => hok p (List.mem_cons_of_mem _ hp)) hseg1 rfl rel1
+      have ih := vm_defineAllC ps _ rs1 fr _ Q D (fun p hp => hok p (List.mem_cons_of_mem _ hp))
+        (fun p hp => hcl p (List.mem_cons_of_mem _ hp)) hseg1 rfl rel1
       cases hda : defineAll rs1 fr ps with
       | none =>
         rw [hda] at ih
@@ -1065,7 +1108,7 @@ theorem cclaimN_succ {n : Nat} (hE : CClaimE n) (hN : CClaimN n) : CClaimN (n + 
         cases h1 : Ref.eval n e env rs with
         | ok v1 rs1 =>
           rw [h1] at ih
-          obtain ⟨s1, r1, l1, rel1, ext1, fr1⟩ := ih
+          obtain ⟨s1, r1, l1, rel1, ext1, fr1, hcl1⟩ := ih
           obtain ⟨r2, m2⟩ := glue_pop hseg l1
           have ih2 := hN (e' :: es') (by simp) hes.2 isFn c oldtail gs1 (rb, gs2) hb hfn _ rs1 env _ post (rel1.jmp _ _)
             (hseg.moved m2 (c₁ := ra.1 ++ [.pop]) (c₂ := rb.1) (post' := post) rfl (by simp))
@@ -1100,11 +1143,11 @@ theorem cclaimL_succ {n : Nat} (hE : CClaimE n) (hL : CClaimL n) : CClaimL (n + 
     cases h1 : Ref.eval n e env rs with
     | ok v1 rs1 =>
       rw [h1] at ih
-      obtain ⟨s1, r1, l1, rel1, ext1, fr1⟩ := ih
+      obtain ⟨s1, r1, l1, rel1, ext1, fr1, hcl1⟩ := ih
       simp only
       have a2 : At s1 (pre ++ ra.1) (.popStackPutEnv x) (rb.1 ++ post) :=
         hseg.landed l1 (c₁ := ra.1) (by simp) rfl
-      have hp := psp_stepC a2 l1.data rel1 hbs.1.1
+      have hp := psp_stepC a2 l1.data rel1 hbs.1.1 hcl1
       cases hdef : Ref.define rs1 env x v1 with
       | none =>
         rw [hdef] at hp
@@ -1142,7 +1185,7 @@ theorem cclaimP_succ {n : Nat} (hE : CClaimE n) (hP : CClaimP n) : CClaimP (n + 
     rw [compileBinds] at hc; simp only [g_pure_ok] at hc; subst hc
     simp only [List.map_nil]
     rw [Ref.evalList]
-    · exact ⟨s, ReachE.refl s, rfl, by simp, by simp, hrel, FramesExt.refl rs, Frame.refl s⟩
+    · exact ⟨s, ReachE.refl s, rfl, by simp, by simp, hrel, FramesExt.refl rs, Frame.refl s, fun v hv => by cases hv⟩
     · omega
   | (x, e) :: bs' =>
     rw [FcBinds] at hbs
@@ -1158,17 +1201,21 @@ theorem cclaimP_succ {n : Nat} (hE : CClaimE n) (hP : CClaimP n) : CClaimP (n + 
     cases h1 : Ref.eval n e env rs with
     | ok v1 rs1 =>
       rw [h1] at ih
-      obtain ⟨s1, r1, l1, rel1, ext1, fr1⟩ := ih
+      obtain ⟨s1, r1, l1, rel1, ext1, fr1, hcl1⟩ := ih
       simp only
       have ih2 := hP bs' hbs.2 isFn _ gs1 (rb, gs2) hb hfn s1 rs1 env (pre ++ ra.1) post rel1
         (hseg.move l1.fn (by simp) (by rw [l1.pc, hseg.pc]; simp))
       cases h2 : Ref.evalList n (bs'.map (·.2)) env rs1 with
       | ok vs rs2 =>
         rw [h2] at ih2
-        obtain ⟨s2, r2, hfn2, hpc2, hdata2, rel2, ext2, fr2⟩ := ih2
-        refine ⟨s2, (r1.trans r2).mono (by lenarith), hfn2.trans l1.fn, ?_, ?_, rel2, ext1.trans ext2, fr1.trans fr2⟩
+        obtain ⟨s2, r2, hfn2, hpc2, hdata2, rel2, ext2, fr2, hcl2⟩ := ih2
+        refine ⟨s2, (r1.trans r2).mono (by lenarith), hfn2.trans l1.fn, ?_, ?_, rel2, ext1.trans ext2, fr1.trans fr2,
+          fun w hw => ?_⟩
         · rw [hpc2, l1.pc]; simp only [List.length_append]; push_cast; omega
         · rw [hdata2, l1.data]; simp
+        · rcases List.mem_cons.mp hw with rfl | hw
+          · exact hcl1
+          · exact hcl2 w hw
       | err rs2 => rw [h2] at ih2; exact (FailsE.of_reach r1 ih2).mono (by lenarith)
       | timeout => trivial
       | brk l rs2 => rw [h2] at ih2; exact ih2.elim
@@ -1184,7 +1231,7 @@ theorem cclaimV_succ {n : Nat} (hE : CClaimE n) (hV : CClaimV n) : CClaimV (n + 
   | [] =>
     rw [compileAll] at hc; simp only [g_pure_ok] at hc; subst hc
     rw [Ref.evalList]
-    · exact ⟨s, ReachE.refl s, rfl, by simp, by simp, hrel, FramesExt.refl rs, Frame.refl s⟩
+    · exact ⟨s, ReachE.refl s, rfl, by simp, by simp, hrel, FramesExt.refl rs, Frame.refl s, fun v hv => by cases hv⟩
     · omega
   | e :: es' =>
     rw [FcList] at hes
@@ -1197,17 +1244,21 @@ theorem cclaimV_succ {n : Nat} (hE : CClaimE n) (hV : CClaimV n) : CClaimV (n + 
     cases h1 : Ref.eval n e env rs with
     | ok v1 rs1 =>
       rw [h1] at ih
-      obtain ⟨s1, r1, l1, rel1, ext1, fr1⟩ := ih
+      obtain ⟨s1, r1, l1, rel1, ext1, fr1, hcl1⟩ := ih
       simp only
       have ih2 := hV es' hes.2 isFn _ gs1 (rb, gs2) hb hfn s1 rs1 env (pre ++ ra.1) post rel1
         (hseg.move l1.fn (by simp) (by rw [l1.pc, hseg.pc]; simp))
       cases h2 : Ref.evalList n es' env rs1 with
       | ok vs rs2 =>
         rw [h2] at ih2
-        obtain ⟨s2, r2, hfn2, hpc2, hdata2, rel2, ext2, fr2⟩ := ih2
-        refine ⟨s2, (r1.trans r2).mono (by lenarith), hfn2.trans l1.fn, ?_, ?_, rel2, ext1.trans ext2, fr1.trans fr2⟩
+        obtain ⟨s2, r2, hfn2, hpc2, hdata2, rel2, ext2, fr2, hcl2⟩ := ih2
+        refine ⟨s2, (r1.trans r2).mono (by lenarith), hfn2.trans l1.fn, ?_, ?_, rel2, ext1.trans ext2, fr1.trans fr2,
+          fun w hw => ?_⟩
         · rw [hpc2, l1.pc]; simp only [List.length_append]; push_cast; omega
         · rw [hdata2, l1.data]; simp
+        · rcases List.mem_cons.mp hw with rfl | hw
+          · exact hcl1
+          · exact hcl2 w hw
       | err rs2 => rw [h2] at ih2; exact (FailsE.of_reach r1 ih2).mono (by lenarith)
       | timeout => trivial
       | brk l rs2 => rw [h2] at ih2; exact ih2.elim
@@ -1241,7 +1292,7 @@ theorem cclaimB_succ {n : Nat} (hE : CClaimE n) (hB : CClaimB n) : CClaimB (n + 
         cases h1 : Ref.eval n e env rs with
         | ok v1 rs1 =>
           rw [h1] at ih
-          obtain ⟨s1, r1, l1, rel1, ext1, fr1⟩ := ih
+          obtain ⟨s1, r1, l1, rel1, ext1, fr1, hcl1⟩ := ih
           obtain ⟨r2, m2⟩ := glue_pop hseg l1
           have ih2 := hB (e' :: es') (by simp) hes.2 isFn c gs1 (rb, gs2) hb hfn _ rs1 env _ post (rel1.jmp _ _)
             (hseg.moved m2 (c₁ := ra.1 ++ [.pop]) (c₂ := rb.1) (post' := post) rfl (by simp))
@@ -1275,7 +1326,7 @@ theorem cclaimC_succ {n : Nat} (hE : CClaimE n) (hC : CClaimC n) : CClaimC (n + 
     cases h1 : Ref.eval n p env rs with
     | ok v1 rs1 =>
       rw [h1] at ih
-      obtain ⟨s1, r1, l1, rel1, ext1, fr1⟩ := ih
+      obtain ⟨s1, r1, l1, rel1, ext1, fr1, hcl1⟩ := ih
       simp only
       by_cases ht : truthy v1 = true
       · rw [if_pos ht]
@@ -1304,7 +1355,7 @@ theorem cclaimS_succ {n : Nat} (hE : CClaimE n) (hS : CClaimS n) : CClaimS (n + 
     rw [compileSC] at hc; simp only [g_pure_ok] at hc; subst hc
     rw [Ref.evalAndOr]
     · simp only [asmSC] at hseg ⊢
-      exact simC_push _ hrel hseg
+      exact simC_push _ trivial hrel hseg
     · omega
   | [e] =>
     rw [FcList] at hes
@@ -1336,12 +1387,12 @@ theorem cclaimS_succ {n : Nat} (hE : CClaimE n) (hS : CClaimS n) : CClaimS (n + 
         cases h1 : Ref.eval n e env rs with
         | ok v1 rs1 =>
           rw [h1] at ih
-          obtain ⟨s1, r1, l1, rel1, ext1, fr1⟩ := ih
+          obtain ⟨s1, r1, l1, rel1, ext1, fr1, hcl1⟩ := ih
           simp only
           by_cases ht : (truthy v1 == isOr) = true
           · rw [if_pos ht]
             obtain ⟨r2, l2⟩ := glue_sc_stop hseg l1 (by simpa using ht)
-            exact ⟨_, (r1.trans r2.toE).mono (by lenarith), l2, rel1.jmp _ _, ext1, fr1.trans (Frame.jmp _ _ _)⟩
+            exact ⟨_, (r1.trans r2.toE).mono (by lenarith), l2, rel1.jmp _ _, ext1, fr1.trans (Frame.jmp _ _ _), hcl1⟩
           · rw [if_neg ht]
             obtain ⟨r2, m2⟩ := glue_sc_go hseg l1 (by simpa using ht)
             have ih2 := hS isOr (e' :: es') hes.2 isFn c gs (rest, gs1) hrest hfn _ rs1 env _ post (rel1.jmp _ _)
@@ -1371,7 +1422,7 @@ theorem simC_arr_tail {s s₁ : St} {rs rs₁ : Ref.St} {env : Nat} {pre post ca
     (h : Seg s pre (ca ++ [.callArr k]) post) (hk : k = vs.length)
     (r1 : ReachE ca.length s s₁) (hfn1 : fnOf s₁ s₁.curfunc = fnOf s s.curfunc)
     (hpc1 : s₁.pc = s.pc + (ca.length : Int)) (hd1 : s₁.data = vs.reverse.map some ++ s.data)
-    (rel1 : RelC s₁ rs₁ env) (ext1 : FramesExt rs rs₁) (fr1 : Frame s s₁) :
+    (rel1 : RelC s₁ rs₁ env) (ext1 : FramesExt rs rs₁) (fr1 : Frame s s₁) (hclvs : ∀ v ∈ vs, Clean v) :
     SimC (ca ++ [.callArr k]) s rs env
       (match rs₁.heap.alloc vs with | (a, hp) => .ok a { rs₁ with heap := hp }) := by
   have a2 : At s₁ (pre ++ ca) (.callArr k) post :=
@@ -1390,8 +1441,9 @@ theorem simC_arr_tail {s s₁ : St} {rs rs₁ : Ref.St} {env : Nat} {pre post ca
   have hlen : (ca ++ [Instr.callArr k]).length = ca.length + 1 := by simp
   show SimC _ s rs env (.ok (rs₁.heap.alloc vs).1 { rs₁ with heap := (rs₁.heap.alloc vs).2 })
   refine ⟨_, (r1.trans (ReachE.step a2 2 hx)).mono (by rw [hlen]; exact Nat.le_refl _), ⟨?_, ?_, rfl⟩,
-    rel1.of_same rfl rfl rfl rfl rfl rfl rel1.trace, ext1.trans (fun i fr hf => ⟨fr, hf, rfl⟩),
-    fr1.trans ⟨rfl, rfl, rfl, rfl, Nat.le_refl _, fun _ _ => rfl⟩⟩
+    rel1.of_same rfl rfl rfl rfl rfl rfl rel1.trace ⟨rel1.clean.1, cleanHeap_alloc rel1.clean.2 vs hclvs⟩,
+    ext1.trans (fun i fr hf => ⟨fr, hf, rfl⟩),
+    fr1.trans ⟨rfl, rfl, rfl, rfl, Nat.le_refl _, fun _ _ => rfl⟩, trivial⟩
   · exact hfn1
   · show s₁.pc + 1 = _
     rw [hpc1, hlen]; push_cast; omega
@@ -1422,10 +1474,22 @@ theorem Globals.withVars_congr {rs : Ref.St} {fr : Nat} {fr0 : Ref.Frame} {va vb
   intro name hn
   exact ⟨by rw [key]; exact (h name hn).1, fun i hi => by rw [key]; exact (h name hn).2 i hi⟩
 
+theorem CleanSt.withVars_congr {rs : Ref.St} {fr : Nat} {fr0 : Ref.Frame} {va vb : List (String × Val)}
+    (h : CleanSt (withVars rs fr fr0 vb)) (hl : ∀ y, va.lookup y = vb.lookup y) : CleanSt (withVars rs fr fr0 va) := by
+  refine ⟨fun i y w hw => ?_, h.2⟩
+  refine h.1 i y w ?_
+  simp only [withVars, List.getD_eq_getElem?_getD, List.getElem?_set] at hw ⊢
+  by_cases hi : fr = i
+  · subst hi
+    by_cases hlt : fr < rs.frames.length
+    · simp only [hlt, if_true, Option.getD_some] at hw ⊢; rw [← hl y]; exact hw
+    · simp only [hlt, if_false, if_true] at hw ⊢; exact hw
+  · simp only [hi, if_false] at hw ⊢; exact hw
+
 theorem RelC.withVars_congr {s : St} {rs : Ref.St} {fr : Nat} {fr0 : Ref.Frame} {va vb : List (String × Val)} {env : Nat}
     (h : RelC s (withVars rs fr fr0 vb) env) (hfr : rs.frames[fr]? = some fr0)
     (hl : ∀ y, va.lookup y = vb.lookup y) : RelC s (withVars rs fr fr0 va) env :=
-  ⟨h.toRelCore.withVars_congr hfr hl, h.fnchain, h.globals.withVars_congr hl⟩
+  ⟨h.toRelCore.withVars_congr hfr hl, h.fnchain, h.globals.withVars_congr hl, h.clean.withVars_congr hl⟩
 
 /-- `let` with pairwise distinct names: the initialisers in the fresh scope, the bindings
 (popped in reverse order), the body, `removeScope`. -/
@@ -1459,7 +1523,7 @@ theorem cclaimE_letpar {n : Nat} (hB : CClaimB n) (hP : CClaimP n) {bs : List (S
   cases h1 : Ref.evalList n (bs.map (·.2)) rs.frames.length (Ref.newFrame rs env).2 with
   | ok vs rs2 =>
     rw [h1] at hL
-    obtain ⟨s2, r2, hfn2, hpc2, hdata2, rel2, ext2, fr2⟩ := hL
+    obtain ⟨s2, r2, hfn2, hpc2, hdata2, rel2, ext2, fr2, hcl2⟩ := hL
     simp only
     have hlen : vs.length = bs.length := by
       have := ref_evalList_length _ _ _ _ _ _ h1
@@ -1486,7 +1550,10 @@ theorem cclaimE_letpar {n : Nat} (hB : CClaimB n) (hP : CClaimP n) {bs : List (S
       intro p hp
       have hmem : p.1 ∈ bs.map (·.1) := (List.of_mem_zip (show (p.1, p.2) ∈ _ from List.mem_reverse.mp hp)).1
       exact fcBinds_names bs hbs p.1 hmem
-    have hvm := vm_defineAllC ((bs.map (·.1)).zip vs).reverse s2 rs2 rs.frames.length _ _ s.pushScope.data hokp hsegB
+    have hclp : ∀ p ∈ ((bs.map (·.1)).zip vs).reverse, Clean p.2 := by
+      intro p hp
+      exact hcl2 p.2 (List.of_mem_zip (show (p.1, p.2) ∈ _ from List.mem_reverse.mp hp)).2
+    have hvm := vm_defineAllC ((bs.map (·.1)).zip vs).reverse s2 rs2 rs.frames.length _ _ s.pushScope.data hokp hclp hsegB
       (by rw [hmapD]; exact hdata2) rel2
     have hlt2 := rel2.chain.lt
     obtain ⟨fr0, hfr0⟩ : ∃ fr0, rs2.frames[rs.frames.length]? = some fr0 := ⟨rs2.frames[rs.frames.length], by simp [hlt2]⟩
@@ -1541,16 +1608,16 @@ theorem cclaimE_succ {n : Nat} (hE : CClaimE n) (hB : CClaimB n) (hC : CClaimC n
   cases e with
   | int x =>
     rw [compile] at hc; simp only [g_pure_ok] at hc; subst hc
-    rw [Ref.eval]; exact simC_push _ hrel hseg
+    rw [Ref.eval]; exact simC_push _ trivial hrel hseg
   | bool x =>
     rw [compile] at hc; simp only [g_pure_ok] at hc; subst hc
-    rw [Ref.eval]; exact simC_push _ hrel hseg
+    rw [Ref.eval]; exact simC_push _ trivial hrel hseg
   | str x =>
     rw [compile] at hc; simp only [g_pure_ok] at hc; subst hc
-    rw [Ref.eval]; exact simC_push _ hrel hseg
+    rw [Ref.eval]; exact simC_push _ trivial hrel hseg
   | nilLit =>
     rw [compile] at hc; simp only [g_pure_ok] at hc; subst hc
-    rw [Ref.eval]; exact simC_push _ hrel hseg
+    rw [Ref.eval]; exact simC_push _ trivial hrel hseg
   | sym x =>
     rw [compile] at hc; simp only [g_pure_ok] at hc; subst hc
     exact simC_sym x n hrel hseg
@@ -1564,7 +1631,7 @@ theorem cclaimE_succ {n : Nat} (hE : CClaimE n) (hB : CClaimB n) (hC : CClaimC n
       | zero => rw [Ref.evalBegin]; trivial
       | succ m =>
         rw [Ref.evalBegin]
-        · exact simC_push _ hrel hseg
+        · exact simC_push _ trivial hrel hseg
         · omega
     | cons e0 es0 =>
       rw [compile] at hc
@@ -1583,8 +1650,8 @@ theorem cclaimE_succ {n : Nat} (hE : CClaimE n) (hB : CClaimB n) (hC : CClaimC n
     cases h1 : Ref.eval n e1 env rs with
     | ok v rs1 =>
       rw [h1] at ih
-      obtain ⟨s1, r1, l1, rel1, ext1, fr1⟩ := ih
-      exact simC_def_tail hseg he.1 r1 l1 rel1 ext1 fr1
+      obtain ⟨s1, r1, l1, rel1, ext1, fr1, hcl1⟩ := ih
+      exact simC_def_tail hseg he.1 r1 l1 rel1 ext1 fr1 hcl1
     | err rs1 => rw [h1] at ih; exact SimC.prefix ih (fun _ _ hh => by cases hh) (by lenarith)
     | timeout => trivial
     | brk l rs1 => rw [h1] at ih; exact ih.elim
@@ -1601,8 +1668,8 @@ theorem cclaimE_succ {n : Nat} (hE : CClaimE n) (hB : CClaimB n) (hC : CClaimC n
     cases h1 : Ref.eval n e1 env rs with
     | ok v rs1 =>
       rw [h1] at ih
-      obtain ⟨s1, r1, l1, rel1, ext1, fr1⟩ := ih
-      exact simC_set_tail hseg he.1 r1 l1 rel1 ext1 fr1
+      obtain ⟨s1, r1, l1, rel1, ext1, fr1, hcl1⟩ := ih
+      exact simC_set_tail hseg he.1 r1 l1 rel1 ext1 fr1 hcl1
     | err rs1 => rw [h1] at ih; exact SimC.prefix ih (fun _ _ hh => by cases hh) (by lenarith)
     | timeout => trivial
     | brk l rs1 => rw [h1] at ih; exact ih.elim
@@ -1688,8 +1755,8 @@ theorem cclaimE_succ {n : Nat} (hE : CClaimE n) (hB : CClaimB n) (hC : CClaimC n
     cases h1 : Ref.evalList n es env rs with
     | ok vs rs1 =>
       rw [h1] at ih
-      obtain ⟨s1, r1, hfn1, hpc1, hd1, rel1, ext1, fr1⟩ := ih
-      exact simC_arr_tail hseg (ref_evalList_length _ _ _ _ _ _ h1).symm r1 hfn1 hpc1 hd1 rel1 ext1 fr1
+      obtain ⟨s1, r1, hfn1, hpc1, hd1, rel1, ext1, fr1, hclvs⟩ := ih
+      exact simC_arr_tail hseg (ref_evalList_length _ _ _ _ _ _ h1).symm r1 hfn1 hpc1 hd1 rel1 ext1 fr1 hclvs
     | err rs1 => rw [h1] at ih; exact FailsE.mono ih (by lenarith)
     | timeout => trivial
     | brk l rs1 => rw [h1] at ih; exact ih.elim
